@@ -1096,6 +1096,40 @@ def m_datetime(I, args, kwargs):
     return Opaque("datetime", dict(vals, __class__=_dt.datetime))
 
 
+# ----------------------------------------------------------------------------- dataclasses.asdict
+import dataclasses as _dc  # noqa: E402
+
+
+def _asdict_value(I, v):
+    if isinstance(v, SObj) and _dc.is_dataclass(v.cls):
+        return {f.name: _asdict_value(I, v.fields[f.name]) for f in _dc.fields(v.cls)}
+    if isinstance(v, list):
+        return [_asdict_value(I, x) for x in v]
+    if isinstance(v, tuple):
+        return tuple(_asdict_value(I, x) for x in v)
+    if isinstance(v, dict):
+        return {k: _asdict_value(I, x) for k, x in v.items()}
+    return v
+
+
+@model(_dc.fields)
+def m_dc_fields(I, args, kwargs):
+    (o,) = args
+    if isinstance(o, SObj):
+        return _dc.fields(o.cls)
+    return _native(I, _dc.fields, args, kwargs)
+
+
+@model(_dc.asdict)
+def m_asdict(I, args, kwargs):
+    (o,) = args
+    if isinstance(o, SObj) and _dc.is_dataclass(o.cls):
+        return _asdict_value(I, o)
+    if _sym(o):
+        I.raise_py(TypeError, "asdict() should be called on dataclass instances")
+    return _native(I, _dc.asdict, args, kwargs)
+
+
 # ----------------------------------------------------------------------------- copy
 import copy as _copy  # noqa: E402
 
